@@ -7,7 +7,12 @@ fail=0
 for d in $dirs; do
   prop=$(python3 -c "import json;print(json.load(open('seeded/$d/meta.json'))['breaks_property'])")
   if ! git -C /repo apply --check /verif/seeded/$d/patch.diff 2>/dev/null; then echo "seeded/$d: patch no longer applies to /repo HEAD"; fail=1; continue; fi
+  miss=$(python3 -c "import json;print(json.load(open('seeded/$d/meta.json')).get('expected_miss', False))")
   out=$(tools/try_mutant.sh /verif/seeded/$d/patch.diff $prop 2>&1)
+  if [ "$miss" = "True" ]; then
+    if echo "$out" | grep -q "== $prop exit=1"; then echo "seeded/$d: detected (was recorded as a miss)"; else echo "seeded/$d: missed, as recorded in its meta.json and DESIGN.md section 9"; fi
+    continue
+  fi
   if echo "$out" | grep -q "== $prop exit=1" && echo "$out" | grep -q "^VIOLATION property=$prop"; then
     echo "seeded/$d: DETECTED by ./check $prop ($(echo "$out" | grep -E "seed=" | tail -1 | sed 's/.*evaluations, //'))"
   else
